@@ -461,6 +461,12 @@ def check_case(chk, case, obs, spec_ops):
                     'the script denotes {} delays/waits, the clock was asked for {}'.format(
                         len(want), len(obs.ops))))
         return bad
+    if obs.start is None:
+        if want:
+            bad.append(('clock-never-started',
+                        'the script ran through {} delay(s) / wait(s) without ever starting its clock: they '
+                        'are not measured from the start of the script'.format(len(want))))
+        return bad
     base = frac(obs.start)
     total = Fraction(0)
     exact = spec_timeline(obs.start, case['tick'], spec_ops) if solo else None
